@@ -1,12 +1,31 @@
 #!/bin/bash
 # confirm_seed.sh <Pid> <worktree> <outdir> : confirm a seeded change in its scratch worktree
 # (tests pass with it; demo fails with it, passes without), then store it under /verif/seeded/<Pid>-<n>/
+# The demo's compile command is taken from the header comment of demo.cpp (first `g++ …` line with its continuations).
 P=$1; W=$2; O=$3
+CMD=$(python3 - "$O/demo.cpp" "$O/demo_bin" <<'PY'
+import re,sys
+src=open(sys.argv[1]).read().splitlines()
+cmd=[]; on=False
+for l in src[:80]:
+    s=re.sub(r'^\s*(//|\*|/\*)\s?','',l).rstrip()
+    if not on and 'g++' in s:
+        on=True
+        s=s[s.index('g++'):] if not re.match(r'^\s*[A-Z_]+=',s) else s
+    if on:
+        cont=s.endswith('\\')
+        cmd.append(s.rstrip('\\').strip())
+        if not cont: break
+c=' '.join(cmd)
+c=c.split('&&')[0].strip()
+c=re.sub(r'-o\s+\S+','',c)+' -o '+sys.argv[2]
+print(c)
+PY
+)
+echo "demo compile: $CMD"
 run_demo() {
-  g++ -std=gnu++17 -O1 -DNDEBUG -w $EXTRA -I$W/include -I$W/include/nfl -I$W/include/nfl/prng $O/demo.cpp \
-    $W/lib/params/params.cpp $W/lib/prng/fastrandombytes.cpp $( [ -z "$NORB" ] && echo $W/lib/prng/randombytes.cpp ) \
-    $W/lib/prng/nfl_crypto_stream_salsa20_amd64_xmm6.s -lgmpxx -lgmp -lmpfr -lpthread -o $O/demo_bin 2>$O/demo_build.log || { echo "demo build failed"; tail -3 $O/demo_build.log; return 99; }
-  $O/demo_bin > $O/demo_out.txt 2>&1; rc=$?; tail -2 $O/demo_out.txt; return $rc
+  bash -c "$CMD" 2>$O/demo_build.log || { echo "demo build failed"; tail -3 $O/demo_build.log; return 99; }
+  timeout 900 $O/demo_bin > $O/demo_out.txt 2>&1; rc=$?; tail -2 $O/demo_out.txt; return $rc
 }
 cd $W || exit 1
 git diff --quiet && { echo "worktree has no change applied"; exit 1; }
@@ -16,9 +35,9 @@ ctest --test-dir _build -j1 -R '^build_' --timeout 900 >/dev/null 2>&1
 ctest --test-dir _build -j4 --timeout 900 > $O/ctest_out.txt 2>&1; grep "tests passed" $O/ctest_out.txt
 T=$(grep -c "100% tests passed" $O/ctest_out.txt)
 echo "[2] demo WITH the change"; run_demo; RC1=$?
-git stash -q
+git diff > $O/my_patch.diff; git checkout -- .
 echo "[3] demo WITHOUT the change"; run_demo; RC0=$?
-git stash pop -q
+git apply $O/my_patch.diff
 echo "tests_pass=$T demo_with=$RC1 demo_without=$RC0"
 if [ "$T" = "1" ] && [ "$RC1" != "0" ] && [ "$RC1" != "99" ] && [ "$RC0" = "0" ]; then
   n=1; while [ -e /verif/seeded/$P-$n ]; do n=$((n+1)); done
